@@ -32,7 +32,8 @@ H = Harness("C01", ["OQ.Base.Ring", "OQ.Base.Mat", "OQ.Base.CaseEq", "OQ.Circ.Li
             "BaseWavefunctionSimulator subclass with a random native predicate - by kind, qubit parity, arity, position "
             "mask, always, never - whose native method multiplies to_unitary() or applies operations itself; chunks and final "
             "state), concat (c1 + c2, c + op: widths, operations, unitary), unitary-mixed (symbolic and symbol-free "
-            "gates: known finding F24); non-trivial = at least one operation on a register with an idle qubit or a "
+            "gates: known finding F24); a case whose implementation output is not entry-for-entry the rational recomputation "
+            "but within 1e-9 of it (float rounding / evalf residues) is compared by tolerance only and labelled ~tol; non-trivial = at least one operation on a register with an idle qubit or a "
             "non-ascending / non-adjacent index tuple or at least two operations")
 
 BUILTIN = ["X", "Y", "Z", "I", "S", "SX", "CNOT", "CZ", "SWAP", "ISWAP"]
@@ -224,7 +225,7 @@ def rand_gate(rng, n, unitary_only, allow_sym, max_arity=3, numeric_only=False):
         if numeric_only and any_symbolic(spec):
             continue
         gate = mk_gate(spec)
-        if gate.num_qubits <= min(n, 4):
+        if gate.num_qubits <= min(n, 4) and numeric_conversion_exact(gate, gate_matrix(gate)):
             return spec
     return dict(g="X")
 
@@ -401,6 +402,94 @@ def close(a, b):
     a, b = np.asarray(a, dtype=complex), np.asarray(b, dtype=complex)
     return a.shape == b.shape and bool(np.allclose(a, b, rtol=0, atol=1e-9))
 
+# ----------------------------------------------------------------------------- exactness guard
+# The exact comparison inside Coq is emitted only when the implementation's output equals, entry for entry, the
+# recomputation below in rational arithmetic (Gaussian integers over a common denominator, Python ints inside
+# numpy object arrays).  When it does not but is within 1e-9 of it (float rounding, or the ~1e-125 residues that
+# sympy's evalf leaves when _lift_matrix_numpy converts an unexpanded Power matrix to complex), the case is
+# compared by tolerance only and its kind is labelled "~tol"; beyond the tolerance it is an oracle failure.
+
+class XM:
+    def __init__(self, R, I, D):
+        self.R, self.I, self.D = R, I, D
+
+def _lcm(a, b):
+    return a * b // math.gcd(a, b)
+
+def x_from(M):
+    D = 1
+    for row in M:
+        for re, im in row:
+            D = _lcm(_lcm(D, re.denominator), im.denominator)
+    R = np.array([[int(re * D) for re, im in row] for row in M], dtype=object)
+    I = np.array([[int(im * D) for re, im in row] for row in M], dtype=object)
+    return XM(R, I, D)
+
+def x_vec(v):
+    D = 1
+    for re, im in v:
+        D = _lcm(_lcm(D, re.denominator), im.denominator)
+    return XM(np.array([int(re * D) for re, im in v], dtype=object), np.array([int(im * D) for re, im in v], dtype=object), D)
+
+def x_eye(d):
+    R = np.zeros((d, d), dtype=object)
+    for i in range(d):
+        R[i, i] = 1
+    return XM(R + 0, np.zeros((d, d), dtype=object) + 0, 1)
+
+def x_lift(x, qs, n):
+    d, k = 2 ** n, len(qs)
+    rest = d - 1
+    for q in qs:
+        rest &= ~(1 << (n - 1 - q))
+    subs = [sum(((i >> (n - 1 - q)) & 1) << (k - 1 - t) for t, q in enumerate(qs)) for i in range(d)]
+    R, I = np.zeros((d, d), dtype=object) + 0, np.zeros((d, d), dtype=object) + 0
+    for i in range(d):
+        for j in range(d):
+            if (i & rest) == (j & rest):
+                R[i, j], I[i, j] = x.R[subs[i], subs[j]], x.I[subs[i], subs[j]]
+    return XM(R, I, x.D)
+
+def x_mul(a, b):
+    """a @ b; b may be a vector"""
+    return XM(np.matmul(a.R, b.R) - np.matmul(a.I, b.I), np.matmul(a.R, b.I) + np.matmul(a.I, b.R), a.D * b.D)
+
+def x_op(o, n):
+    if o["t"] == "phase":
+        d = len(o["ks"])
+        R, I = np.zeros((d, d), dtype=object) + 0, np.zeros((d, d), dtype=object) + 0
+        for i, k in enumerate(o["ks"]):
+            R[i, i], I[i, i] = int(IPOW[k][0]), int(IPOW[k][1])
+        return XM(R, I, 1)
+    return x_lift(x_from(o["_M"]), o["qs"], n)
+
+def x_unitary(ops, n):
+    U = x_eye(2 ** n)
+    for o in ops:
+        U = x_mul(x_op(o, n), U)
+    return U
+
+def x_same_mat(O, x):
+    d = len(O)
+    return x.R.shape == (d, d) and all(len(row) == d for row in O) and all(
+        O[i][j][0] * x.D == x.R[i, j] and O[i][j][1] * x.D == x.I[i, j] for i in range(d) for j in range(d))
+
+def x_same_vec(v, x):
+    return len(v) == len(x.R) and all(v[i][0] * x.D == x.R[i] and v[i][1] * x.D == x.I[i] for i in range(len(v)))
+
+def finish(res, exact):
+    if not exact and res["oracle_ok"]:
+        res["chk"] = None
+        res["kind"] += "~tol"
+    return res
+
+def numeric_conversion_exact(gate, M):
+    """does np.array(gate.matrix, dtype=complex) (what _lift_matrix_numpy does first) reproduce the exact entries?"""
+    if gate.free_symbols:
+        return True
+    st, a = outcome(lambda: np.array(gate.matrix, dtype=complex), timeout=10)
+    return st == "ok" and exmat(a) == M
+
 # ----------------------------------------------------------------------------- building implementation objects
 
 def build_ops(ops):
@@ -508,8 +597,9 @@ def run_case(inp0):
         ok = valid and close(fl(O), ref_lift(fl(M), qs, n))
         msg = "" if ok else f"lifted_matrix({n}) of gate {inp['gate']} on qubits {qs} is not the gate on those qubits and identity elsewhere" + ("" if valid else " (invalid index tuple accepted)")
         chk = f"negb (lift_raises {g} {cnat(n)}) && lift_eqb {g} {cnat(n)} {csmat(O)}"
-        return dict(chk=chk, oracle_ok=ok, oracle_msg=msg, kind=label + f"-k{len(qs)}",
-                    nontrivial=len(qs) < n or qs != sorted(qs))
+        exact = valid and x_same_mat(O, x_lift(x_from(M), qs, n))
+        return finish(dict(chk=chk, oracle_ok=ok, oracle_msg=msg, kind=label + f"-k{len(qs)}",
+                           nontrivial=len(qs) < n or qs != sorted(qs)), exact)
     if kind == "unitary":
         n, ops = inp["n"], inp["ops"]
         impl = build_ops(ops)
@@ -541,8 +631,9 @@ def run_case(inp0):
         msg = "" if ok else f"to_unitary of {[(o['gate'], o['qs']) for o in gs]} on {w} qubits (expected width {wexp}) is not the product of the lifted gates in program order"
         nopt = f"(Some {cnat(n)})" if inp["explicit"] else "None"
         chk = f"Nat.eqb {cnat(w)} {cnat(wexp)} && unitary_eqb {clist(gs, c_gate)} {nopt} {cnat(w)} {csmat(O)}"
-        return dict(chk=chk, oracle_ok=ok, oracle_msg=msg, kind=label + (f"-n{w}" if label == "unitary" else ""),
-                    nontrivial=shape_nontrivial(ops, w))
+        exact = len(O) == 2 ** w and x_same_mat(O, x_unitary(ops, w))
+        return finish(dict(chk=chk, oracle_ok=ok, oracle_msg=msg, kind=label + (f"-n{w}" if label == "unitary" else ""),
+                           nontrivial=shape_nontrivial(ops, w)), exact)
     if kind == "run":
         n, ops = inp["n"], inp["ops"]
         impl = build_ops(ops)
@@ -550,6 +641,7 @@ def run_case(inp0):
         v = init_vec(inp["init"], n)
         states, snaps, ok, msg = [], 0, True, ""
         ref = v.copy()
+        xv, exact = x_vec([ex(complex(a, b) / d) for a, b, d in inp["init"]]), True
         for k, (o, io) in enumerate(zip(ops, impl)):
             st, v2 = outcome(lambda: io.apply(v), timeout=60)
             if st != "ok":
@@ -559,12 +651,14 @@ def run_case(inp0):
             ref = np.matmul(ref_op_matrix(o, n), ref)
             if ok and not (sok and close(v2, ref)):
                 ok, msg = False, f"after operation {k} ({o.get('gate', 'phase')} on {o.get('qs')}) the state is not the lifted matrix applied to the previous state"
+            xv = x_mul(x_op(o, n), xv)
+            exact = exact and x_same_vec(sv, xv)
             states.append(sv)
             v = v2
         has_phase = any(o["t"] == "phase" for o in ops)
         chk = f"steps_eqb {cnat(n)} {clist(ops, c_op)} {cvec([ex(complex(a, b) / d) for a, b, d in inp['init']])} {clist(states, cvec)}"
-        return dict(chk=chk, oracle_ok=ok, oracle_msg=msg, kind="run" + ("-phase" if has_phase else "") + ("+snap" if snaps else ""),
-                    nontrivial=shape_nontrivial(ops, n))
+        return finish(dict(chk=chk, oracle_ok=ok, oracle_msg=msg, kind="run" + ("-phase" if has_phase else "") + ("+snap" if snaps else ""),
+                           nontrivial=shape_nontrivial(ops, n)), exact)
     if kind == "sim":
         n, ops = inp["n"], inp["ops"]
         impl = build_ops(ops)
@@ -606,8 +700,13 @@ def run_case(inp0):
         kops = clist(list(zip(keys, ops)), lambda ko: cpair(cbool(ko[0]), c_op(ko[1]))) if len(keys) == len(ops) else "[]"
         chk = (f"symbolic_eqb {cnat(n)} {clist(ops, c_op)} {initl} {cvec(s1)} && "
                f"sim_eqb {cbool(inp['by_unitary'])} {cnat(n)} {kops} {initl} {clist(chunks, lambda bl: cpair(cbool(bl[0]), cnat(bl[1])))} {cvec(s2)}")
-        return dict(chk=chk, oracle_ok=ok, oracle_msg=msg, kind=f"sim-{inp['pred']}" + ("+snap" if cnt1 + cnt2 else ""),
-                    nontrivial=len(chunks) >= 2 or shape_nontrivial(ops, n))
+        xv = x_vec([ex(complex(a, b) / dd) for a, b, dd in inp["init"]]) if inp["init"] is not None else \
+            x_vec([(F(1 if i == 0 else 0), F(0)) for i in range(d)])
+        for o in ops:
+            xv = x_mul(x_op(o, n), xv)
+        exact = x_same_vec(s1, xv) and x_same_vec(s2, xv)
+        return finish(dict(chk=chk, oracle_ok=ok, oracle_msg=msg, kind=f"sim-{inp['pred']}" + ("+snap" if cnt1 + cnt2 else ""),
+                           nontrivial=len(chunks) >= 2 or shape_nontrivial(ops, n)), exact)
     if kind in ("concat", "append"):
         a = inp["ops1"]
         ia = build_ops(a)
@@ -645,7 +744,8 @@ def run_case(inp0):
                    f"{cnat(w)} {csmat(O)}")
         else:
             chk = f"cappend_eqb {clist(a, c_gate)} {o1} {c_gate(b[0])} {cnat(c1.n_qubits)} {cnat(w)} {csmat(O)}"
-        return dict(chk=chk, oracle_ok=ok, oracle_msg=msg, kind=kind, nontrivial=len(a) + len(b) >= 2 or w > w2 or w > c1.n_qubits)
+        exact = len(O) == 2 ** w and x_same_mat(O, x_unitary(a + b, w))
+        return finish(dict(chk=chk, oracle_ok=ok, oracle_msg=msg, kind=kind, nontrivial=len(a) + len(b) >= 2 or w > w2 or w > c1.n_qubits), exact)
     raise ValueError(kind)
 
 # ----------------------------------------------------------------------------- witnesses of recorded findings
